@@ -135,6 +135,17 @@ def check_shift_layout(model: Model, L: RuleResult, tier: str):
     if not br:
         raise AnalysisError("C01-E: the `E is None` branch vanished from _setup_linear_problem")
     body = br[0].orelse if ast.unparse(br[0].test) == "E is None" else br[0].body
+    # roles, not names: the shifted right-hand side is the third element of the returned tuple; the shift
+    # tensor is the branch-local value the nested operator closures read
+    params = set(g.params())
+    assigned = [t.id for s in body if isinstance(s, ast.Assign) for t in s.targets if isinstance(t, ast.Name)]
+    closure_reads = {n.id for s in body if isinstance(s, ast.FunctionDef) for n in ast.walk(s) if isinstance(n, ast.Name)}
+    e_names = [a for a in dict.fromkeys(assigned) if a in closure_reads and a not in params]
+    rets = [r.value for r in own_nodes(g.node) if isinstance(r, ast.Return) and isinstance(r.value, ast.Tuple) and len(r.value.elts) == 4]
+    b_names = {r.elts[2].id for r in rets if isinstance(r.elts[2], ast.Name)} & set(assigned)
+    if len(e_names) != 1 or len(b_names) != 1:
+        raise AnalysisError("C01-E: cannot identify the shifted set-up's shift tensor / right-hand side (closure reads %s, returned %s)" % (e_names, sorted(b_names)))
+    e_name, b_name = e_names[0], b_names.pop()
     n2 = 0
     bad2 = None
     for withM in (False, True):
@@ -158,7 +169,7 @@ def check_shift_layout(model: Model, L: RuleResult, tier: str):
                         it.run([s])
                     m = max(len(ba), len(bb), len(be), len(bm) if withM else 0)
                     pad = lambda sh: tuple([1] * (m - len(sh)) + list(sh))
-                    e_new, b_new = it.env.get("E_new"), it.env.get("B_new")
+                    e_new, b_new = it.env.get(e_name), it.env.get(b_name)
                     exp_e = ("nc",) + pad(be) + (1, 1)
                     exp_b = ("nc",) + pad(bb) + ("nr", 1)
                     got = (tuple(e_new.shape) if isinstance(e_new, T) else None, tuple(b_new.shape) if isinstance(b_new, T) else None)
